@@ -1061,7 +1061,20 @@ def find_replace(
     else:
         iterator = [[m] for m in core.walk_wildcard(root, find)]
 
+    # The literal pieces of an f-string are ast.Constant nodes with a position (python 3.12), but their
+    # source text is not a string literal: they cannot be rewritten as one.
+    fstring_pieces = {
+        id(piece)
+        for node in ast.walk(root)
+        if isinstance(node, ast.JoinedStr)
+        for piece in node.values
+        if isinstance(piece, ast.Constant)
+    }
+
     for matches in iterator:
+        if any(id(m[0]) in fstring_pieces for m in matches):
+            continue
+
         if isinstance(find, list):
             combined_match = core.merge_matches(root, matches)
         else:
